@@ -228,6 +228,11 @@ class Script(object):
         if not self.closed:
             self.closed = True
             self.link.server_close()
+            if getattr(self, 'reset_on_close', False):
+                # the peer is gone for good (RST): writing to it fails
+                import errno
+                self.link.send_error = BrokenPipeError(errno.EPIPE,
+                                                       'Broken pipe')
 
 
 class Server(Script):
@@ -373,11 +378,15 @@ class Server(Script):
             step = self.steps.pop(0)
             kind = step[0]
             if kind == 'encrypt':
-                _, bits, token, sid = step
+                bits, token, sid = step[1:4]
+                # optional 5th element: which valid DER encoding of the key
+                # the server sends ('spki' = what a Java server sends)
+                self.enc_key_bytes = rsa.key_encodings(bits)[
+                    step[4] if len(step) > 4 else 'spki']
                 self.enc_bits, self.enc_token, self.enc_sid = bits, token, sid
                 self.send_frame(*encode(
                     v, 'encryption_request', server_id=sid,
-                    public_key=rsa.key(bits)['der'], verify_token=token))
+                    public_key=self.enc_key_bytes, verify_token=token))
                 self.waiting = 'encryption_response'
             elif kind == 'compress':
                 self.send_frame(*encode(v, 'login_set_compression',
